@@ -432,8 +432,6 @@ def typeKeyLeft (regs : List Reg) (cons : Dict) : Bool :=
 structure ParseIn where
   /-- contents of the constructor's `config_path` files, in order (`[]` for `None`) -/
   ctorFiles : List Dict
-  /-- the constructor's `config_path` was a non-empty sequence that is not a `list` (e.g. a tuple) -/
-  ctorTuple : Bool
   /-- `add_config_path_arg` (`none` → `bool(config_path)`, parsing.py:167-170) -/
   addArg : Option Bool
   /-- contents of the files given after `--config_path` on the command line (`none`: option absent) -/
@@ -455,11 +453,7 @@ def parsePhase (withoutRoot : Bool) (st : PState) (p : ParseIn) : Out Dict :=
       if addArg then
         match p.cliFiles with
         | some fs => applyFiles withoutRoot st1 fs
-        | none =>
-          -- the option's default is `self.config_path`; a default that is not a `list` is wrapped as one file
-          -- (parsing.py:332) and a tuple then reaches `read_file` → `Path(tuple)` → TypeError
-          if p.ctorTuple && !p.ctorFiles.isEmpty then .error (.raise .typeError)
-          else applyFiles withoutRoot st1 p.ctorFiles
+        | none => applyFiles withoutRoot st1 p.ctorFiles     -- the option's default is `self.config_path`
       else .ok st1
     match second with
     | .error e => .error e
